@@ -211,6 +211,10 @@ def r8_4(ctx):
         if isinstance(ev, Store) and ev.cls:
             for (c, a) in spec.LOGS:
                 if ev.attr == a and is_subclass(ctx, ev.cls, c):
+                    # semantic form first: the stored value is the reversed slice of the same attribute of the same object
+                    # (possibly through a local), as the interpreter names it
+                    if isinstance(ev.value, Unk) and isinstance(ev.recv, Obj) and ev.value.tag == f"{ev.recv.name}.{a}[::-1]":
+                        return (c, a)
                     v = ev.node.value if isinstance(ev.node, ast.Assign) else None
                     if isinstance(v, ast.Subscript) and isinstance(v.slice, ast.Slice) and v.slice.lower is None and v.slice.upper is None \
                             and isinstance(v.slice.step, ast.UnaryOp) and isinstance(v.slice.step.op, ast.USub) \
